@@ -421,8 +421,8 @@ def classify(case, obs):
     with three entries at its final time (flag set by the generator) that is played time-reversed"""
     if 'samples' in obs and _par_under_trafo(case['pt']):
         return 'par-under-transformation'
-    if 'samples' in obs and case.get('final_triple') and 'rev' in G.node_kinds(case['pt']):
-        return 'table-final-triple'
+    if 'samples' in obs and case.get('final_triple'):
+        return 'table-final-triple'       # in range only under time reversal; the sample at t = duration always differs
     return None
 
 
